@@ -339,6 +339,57 @@ func ruleMSGP(p *Prog, r *Report) {
 		} else {
 			r.Bad("MSGP", key, at, "a conversion between the declared type and the wire type changes width or signedness (type changed without regenerating?): "+detail)
 		}
+		// the decoders store what they read: nothing in DecodeMsg/UnmarshalMsg rewrites the receiver (or a field of it) with a
+		// value computed by library code — a normalisation applied on the way in, which the encoders do not apply on the
+		// way out, makes some values decode to something other than what was encoded
+		pure, pdetail := true, ""
+		for _, f := range []*ssa.Function{df, uf} {
+			if len(f.Params) == 0 {
+				continue
+			}
+			recv := ssa.Value(f.Params[0])
+			eachInstr(f, func(_ *ssa.BasicBlock, _ int, in ssa.Instruction) {
+				st, ok := in.(*ssa.Store)
+				if !ok || !pure {
+					return
+				}
+				target := st.Addr
+				if fa, ok := target.(*ssa.FieldAddr); ok {
+					target = fa.X
+				}
+				if target != recv {
+					return
+				}
+				v := st.Val
+				for i := 0; i < 4; i++ {
+					if cv, ok := v.(*ssa.Convert); ok {
+						v = cv.X
+						continue
+					}
+					if ct, ok := v.(*ssa.ChangeType); ok {
+						v = ct.X
+						continue
+					}
+					break
+				}
+				switch x := v.(type) {
+				case *ssa.Call:
+					if sc := x.Call.StaticCallee(); sc != nil && isRepoFn(sc) && sc.Name() != "DecodeMsg" && sc.Name() != "UnmarshalMsg" {
+						pure = false
+						pdetail = fmt.Sprintf("%s stores the result of %s into the receiver at %s", fnName(f), fnName(sc), p.posStr(instrPos(st)))
+					}
+				case *ssa.BinOp:
+					pure = false
+					pdetail = fmt.Sprintf("%s stores a computed value (%s) into the receiver at %s", fnName(f), shortVal(x), p.posStr(instrPos(st)))
+				}
+			})
+		}
+		key = base + " | decoders store what they read"
+		if pure {
+			r.OK("MSGP", key, at, "no store into the receiver of a value computed by library code")
+		} else {
+			r.Bad("MSGP", key, at, "the decoder rewrites what it read ("+pdetail+"): values the encoders write verbatim no longer decode to themselves")
+		}
 		// Msgsize upper bound
 		key = base + " | Msgsize"
 		need := rawE
